@@ -425,11 +425,39 @@ def delegate_rule(ctx, prog):
         name = m.group(2)
         dele = set(bi for bi, t in b.calls() if (mirq.callee_of(t)[0] or "").endswith("::" + name) and "resources::TextResource" in ((mirq.callee_of(t)[1] or "") + " " + ((t.get("at") or [""])[0])))
         rets = [bi for bi, blk in enumerate(b.blocks) if blk["t"]["t"] == "return"]
-        bypass = not dele or any(rt == 0 or b.can_reach(0, rt, avoid=dele) for rt in rets if 0 not in dele)
+        # error exits (the function's own `return Err(..)`, or a propagated error) need no delegation
+        errs = set(bi for bi, blk in enumerate(b.blocks) if any((s_.get("rv") or {}).get("r") == "agg" and (s_["rv"].get("variant") == "Err") and s_["p"]["l"] == 0 and not s_["p"]["p"] for s_ in blk["s"]))
+        errs |= set(bi for bi, t in b.calls() if (mirq.callee_of(t)[0] or "").endswith("FromResidual::from_residual"))
+        avoid_ = dele | errs
+        bypass = not dele or any(rt == 0 or b.can_reach(0, rt, avoid=avoid_) for rt in rets if 0 not in avoid_)
         r.hit(bid, sample={"wrapper": m.group(1), "fn": name, "delegates": bool(dele), "bypass": bool(bypass)})
         if bypass:
             ctx.report(r, "%s|%s" % (m.group(1), name), "%s of %s can return without going through TextResource::%s: its answers (in particular the error for a position outside the text) are no longer those of the checked conversion" % (name, m.group(1), name), b.file, b.line)
     ctx.floor(r, n, 6, "wrapper conversions")
+    # a text *selection* converts positions relative to itself: a position beyond its own length must be refused before the
+    # resource (which only knows the length of the whole text) is asked
+    rb = ctx.rule("C12.BOUND", "utf8byte / utf8byte_to_charpos of the text-selection wrappers compare the position with the selection's own length on the way to the delegated conversion (a position beyond the selection but inside the resource is an error, not a number)")
+    nb = 0
+    for bid, b in sorted(prog.bodies.items()):
+        m = re.search(r"^api::text::<impl text::Text<.*> for (.*TextSelection.*)>::(utf8byte|utf8byte_to_charpos)$", bid)
+        if not m or b.d.get("derived"):
+            continue
+        nb += 1
+        name = m.group(2)
+        dele = [bi for bi, t in b.calls() if (mirq.callee_of(t)[0] or "").endswith("::" + name) and "resources::TextResource" in ((mirq.callee_of(t)[1] or "") + " " + ((t.get("at") or [""])[0]))]
+        argname = b.local_name(2) or "_2"
+        facts_ = panics.cmp_facts(b)
+        ok = False
+        for d_ in dele:
+            for pol, f in panics.holds_at(b, d_, facts_):
+                if len(f) == 3 and f[0] in ("Gt", "Ge", "Lt", "Le") and (panics.norm_key(f[1]) == argname or panics.norm_key(f[2]) == argname):
+                    other = f[2] if panics.norm_key(f[1]) == argname else f[1]
+                    if re.search(r"textlen|len\(", other):
+                        ok = True
+        rb.hit(bid, sample={"wrapper": m.group(1), "fn": name, "bound_check_before_delegation": ok})
+        if not ok:
+            ctx.report(rb, "%s|%s" % (m.group(1), name), "%s of %s hands the position to the resource's conversion without first comparing it with the selection's own length: a position beyond the selection (but inside the resource) yields a number instead of an error" % (name, m.group(1)), b.file, b.line)
+    ctx.floor(rb, nb, 4, "selection-level conversions")
 
 
 def div_rule(ctx, prog, rid="C12.DIV"):
